@@ -345,7 +345,9 @@ def classify_line_source(F, body, bb, e, _depth=0):
     if s[0] == "param":
         pi = s[1]
         # dominated by has(param) == true
-        for c in body.calls_to("ProgramLines::has"):
+        from lib import line_membership_tests
+        tests = line_membership_tests(F)
+        for c in [x for x in body.calls() if x.callee in tests and len(x.args) > 1]:
             a = strip_expr(body.expr(c.args[1]))
             if a == ("param", pi) and c.target is not None:
                 t = body.term(c.target)
